@@ -87,8 +87,9 @@ def compare_detect_inference_frame(
         inferred_types, dict
     )  # Placate the MyPy Gods
 
-    for key in detected_types.keys() & inferred_types.keys():
-        comparisons.append((key, detected_types[key], inferred_types[key]))
+    for key in detected_types:
+        if key in inferred_types:
+            comparisons.append((key, detected_types[key], inferred_types[key]))
     return comparisons
 
 
